@@ -8,6 +8,7 @@ CONSTANTS
     OnlyInvolutive = FALSE
     DistAll = FALSE
     Dists = {1, 2, 3, 4}
+    SessMemo = FALSE
     LinMode = "pinned"
     EmitOn = FALSE
 INIT Init
